@@ -429,7 +429,7 @@ struct PoolItem {
     record: Record,
 }
 
-fn run_layer2(run: &Run) {
+fn families() -> Vec<(&'static str, RecordKey, Vec<PoolItem>)> {
     let owner = 5u8;
     // scratchpads
     let pad_key = rec::pad_key(&rec::pad(owner, 1, b"x", owner));
@@ -441,6 +441,7 @@ fn run_layer2(run: &Run) {
         PoolItem { name: "unsigned c=9", record: rec::pad_record(&rec::pad(owner, 9, b"nine", 0)) },
         PoolItem { name: "signed by another key c=9", record: rec::pad_record(&rec::pad(owner, 9, b"nine!", 6)) },
         PoolItem { name: "undecodable", record: mk(rec::record(pad_key.clone(), bytes::Bytes::from_static(&[0x91, 0x05, 0xc1, 0xc1])), &pad_key) },
+        PoolItem { name: "another owner's valid pad c=9 under this key", record: mk(rec::pad_record(&rec::pad(6, 9, b"foreign", 6)), &pad_key) },
     ];
     // registers
     let fx = rec::reg_fixture(owner, b"c05-reg");
@@ -459,7 +460,11 @@ fn run_layer2(run: &Run) {
         PoolItem { name: "[t2]", record: rec::txs_record(tx_key.clone(), &[t[1].clone()]) },
         PoolItem { name: "[t1,t3]", record: rec::txs_record(tx_key.clone(), &[t[0].clone(), t[2].clone()]) },
     ];
-    let families: Vec<(&str, RecordKey, Vec<PoolItem>)> = vec![("scratchpad", pad_key, pads), ("register", reg_key, regs), ("transaction", tx_key, txs)];
+    vec![("scratchpad", pad_key, pads), ("register", reg_key, regs), ("transaction", tx_key, txs)]
+}
+
+fn run_layer2(run: &Run) {
+    let families = families();
     let mut total = 0u64;
     for (fname, key, pool) in &families {
         for mask in enumerate::subsets(pool.len(), 2, 3) {
@@ -508,6 +513,43 @@ fn run_layer2(run: &Run) {
     }
     run.extra("layer2_executions", json!(total));
     run.assume("layer 2: the iteration order of the split-version HashMap (std RandomState) is not controllable; each case is executed 4 times with fresh maps — that one dimension is sampled, everything else is enumerated");
+}
+
+
+/// layer 3: the same pools handed to the real get_record_from_network as a split result whose map iterates in
+/// every order (the harness answers the GetNetworkRecord command itself; see client_rig::result_map_in_order).
+fn run_layer3(run: &Run) {
+    let families = families();
+    let kmax = run.pick(3, 4);
+    let mut total = 0u64;
+    for (fname, key, pool) in &families {
+        for mask in enumerate::subsets(pool.len(), 2, kmax) {
+            let idx: Vec<usize> = (0..pool.len()).filter(|i| mask & (1 << i) != 0).collect();
+            enumerate::permutations(idx.len(), |perm| {
+                let order: Vec<usize> = perm.iter().map(|i| idx[*i]).collect();
+                let recs: Vec<Record> = order.iter().map(|i| pool[*i].record.clone()).collect();
+                let Some(result_map) = crate::client_rig::result_map_in_order(&recs) else {
+                    run.machinery_error("could not build a result map with the wanted iteration order");
+                };
+                total += 1;
+                let mut rig = crate::client_rig::ClientRig::new();
+                let net = rig.network.clone();
+                let k = key.clone();
+                let got = rig.drive(
+                    async move {
+                        let cfg = GetRecordCfg { get_quorum: Quorum::Majority, retry_strategy: None, target_record: None, expected_holders: Default::default(), is_register: false };
+                        net.get_record_from_network(k, &cfg).await.map_err(|e| format!("{e:?}"))
+                    },
+                    |_p| (0, Err(GetRecordError::SplitRecord { result_map: result_map.clone() })),
+                );
+                let names: Vec<&str> = order.iter().map(|i| pool[*i].name).collect();
+                let desc = json!({"layer": 3, "kind": fname, "versions_in_map_iteration_order": names});
+                run.case(format!("L3:{fname}:{order:?}").as_bytes(), true);
+                judge_layer2(run, fname, &order, pool, got, desc);
+            });
+        }
+    }
+    run.extra("layer3_executions", json!(total));
 }
 
 fn judge_layer2(run: &Run, fname: &str, order: &[usize], pool: &[PoolItem], got: Option<Result<Record, String>>, desc: serde_json::Value) {
@@ -603,7 +645,8 @@ pub fn main(tier: Option<&str>) {
          concurrent callers, Found(peer, version) over 5 symmetric peers + the local node and versions {A,B} (duplicates allowed), the four \
          terminating events, Leave(caller); depth 6(8); peers are reduced by symmetry (one representative per answer signature + one fresh peer); \
          run once with opaque versions and once with mergeable transaction versions. layer 2: every subset (2-3) of a version pool per \
-         mergeable kind x every arrival order through the real Network::get_record_from_network.",
+         mergeable kind x every arrival order through the real Network::get_record_from_network. layer 3: every subset (2-3(4)) of the same pools \
+         handed to get_record_from_network as a split result whose map iterates in every order.",
     );
     run.assume("kad events are synthetic (QueryStats::empty, ProgressStep counting replies); the driver's own bookkeeping (pending_get_record) is real");
     let depth = run.pick(6, 8);
@@ -632,5 +675,6 @@ pub fn main(tier: Option<&str>) {
         );
     }
     run_layer2(&run);
+    run_layer3(&run);
     run.finish();
 }
